@@ -40,6 +40,7 @@ theorem fact_numberParams : Generated.c12_numberParams = Expected.numberParams :
 theorem fact_numberParse : Generated.c12_numberParse = Expected.numberParse := by first | rfl | decide
 theorem fact_numberReturn : Generated.c12_numberReturn = Expected.numberReturn := by first | rfl | decide
 theorem fact_fragmentLoop : Generated.c12_fragmentLoop = Expected.fragmentLoop := by first | rfl | decide
+theorem fact_fragmentGuards : Generated.c12_fragmentGuards = Expected.fragmentGuards := by first | rfl | decide
 theorem fact_renderableShape : Generated.c12_renderableShape = Expected.renderableShape := by first | rfl | decide
 theorem fact_renderableBytes : Generated.c12_renderableBytes = Expected.renderableBytes := by first | rfl | decide
 theorem fact_identRE : Generated.c12_identRE = Expected.identRE := by first | rfl | decide
@@ -242,6 +243,12 @@ end Old
 theorem old_reader_dropped_a_character :
     Old.parseFragment [92, 120, 52, 49, 66, 67] = some [65, 67]
     ∧ parseFragment [92, 120, 52, 49, 66, 67] = some [65, 66, 67] := by decide
+
+/-- a trailing backslash, an unknown escape, too few digits, an octal escape above \377: the reader reports an error
+(`none`); since the repair that is a compile error, not a panic -/
+theorem bad_escapes_are_rejected :
+    parseFragment [97, 92] = none ∧ parseFragment [92, 113] = none ∧ parseFragment [92, 120, 52] = none
+    ∧ parseFragment [92, 52, 48, 48] = none ∧ parseFragment [92, 117, 49, 50, 32, 120] = none := by decide
 
 /-- `"\101"` panicked (6-bit limit for three octal digits); now `A` -/
 theorem old_reader_octal_limit :
